@@ -49,6 +49,9 @@ func (x *Exec) model(fn *ssa.Function, name string) modelFn {
 	if m := x.timeModels(fn, name); m != nil {
 		return m
 	}
+	if m := x.fileModels(fn, name); m != nil {
+		return m
+	}
 	// logging and metrics: A1 effect-free
 	if isLogOrMetric(name) {
 		if strings.Contains(name, "glog.Fatal") || strings.Contains(name, "glog.Exit") {
